@@ -1,6 +1,6 @@
 (* Entry points of the extracted model: one number per model function. *)
 From Coq Require Import ZArith List.
-From Tdda Require Import Base.Sexp RefTest.Argv RefTest.Tagged Serial.DateFmt RefTest.CheckStrings.
+From Tdda Require Import Base.Sexp RefTest.Argv RefTest.Tagged Serial.DateFmt RefTest.CheckStrings RefTest.Artefacts.
 Import ListNotations.
 Open Scope Z_scope.
 
@@ -11,5 +11,7 @@ Definition dispatch (n : Z) (s : sexp) : sexp :=
   | 3 => translate_entry s
   | 4 => check_strings_entry s
   | 5 => splitlines_entry s
+  | 6 => binary_entry s
+  | 7 => artefacts_entry s
   | _ => L [A (-1)]
   end.
